@@ -43,6 +43,43 @@ def walk_with_parents(n, parents=()):
             yield from walk_with_parents(c, p2)
 
 
+_NORMAL_PATH = {}
+
+
+def normal_path(fn):
+    """The function as it runs when no exception unwinds through a guard object: a `try` written out for a guard by the
+    normalisation (its handler runs the guard's action and throws the exception on) is its body.  Rules that speak about
+    what a successful call writes and returns look at this view; what a guard does while unwinding is the business of the
+    rules that ask about failures (R16.6, R12.5)."""
+    if fn is None or fn.get("body") is None:
+        return fn
+    key = (id(fn), id(fn["body"]))
+    if key in _NORMAL_PATH:
+        return _NORMAL_PATH[key][1]
+    if not any(x.get("k") == "Try" and x.get("synthetic") for x in walk(fn["body"])):
+        _NORMAL_PATH[key] = (fn, fn)
+        return fn
+
+    def rec(n):
+        if isinstance(n, list):
+            out = []
+            for x in n:
+                if isinstance(x, dict) and x.get("k") == "Try" and x.get("synthetic"):
+                    out.extend(rec(stmts(x.get("body"))))
+                else:
+                    out.append(rec(x))
+            return out
+        if not isinstance(n, dict):
+            return n
+        if n.get("k") == "Try" and n.get("synthetic"):
+            return {"k": "Block", "l": n.get("l"), "s": rec(stmts(n.get("body")))}
+        return {kk: (rec(vv) if isinstance(vv, (dict, list)) else vv) for kk, vv in n.items()}
+    g = dict(fn)
+    g["body"] = rec(fn["body"])
+    _NORMAL_PATH[key] = (fn, g)         # (keeps fn alive so that the ids stay unique)
+    return g
+
+
 def stmts(n):
     """Statement list of a Block (or a single statement wrapped in a list)."""
     if n is None:
